@@ -28,6 +28,7 @@ fn main() {
         "hash" => streams::hash::run(&mut out, seed, thorough, replay),
         "id" => streams::id::run(&mut out, seed, thorough, replay),
         "closest" => streams::closest::run(&mut out, seed, thorough, replay),
+        "mnet" => streams::mnet::run(&mut out, seed, thorough, replay),
         "node" => streams::node::run(&mut out, seed, thorough, replay),
         "socket" => streams::socket::run(&mut out, seed, thorough, replay),
         "putq" => streams::putq::run(&mut out, seed, thorough, replay),
